@@ -130,7 +130,7 @@ def lookup(target: str):
     modname, _, qual = target.partition(":")
     module = importlib.import_module(modname)
     mfile = os.path.realpath(module.__file__)
-    if not mfile.startswith(REPO + os.sep):
+    if not allowed_root(mfile):
         raise RuntimeError(f"{modname} loaded from {mfile}, not from {REPO}")
     obj = module
     owner = None
